@@ -26,6 +26,8 @@ CONSTANTS Nodes,          \* e.g. {"n1","n2","n3"}
           RespTypes,      \* connection types a misbehaving peer may put into a forged response
           LimParent, LimUncle, LimChildren, LimNephew, LimOther,
           MaxOps, MaxInject, MaxRoleChanges,
+          OnlyDiscover,   \* TRUE: nodes send only the requests their discover loop would send
+          Dials,          \* set of pairs <<a, b>>: a dialled b (b is an outgoing connection of a)
           RecordHist
 
 Types == {"none", "parent", "children", "uncle", "nephew", "friend", "other"}
@@ -142,9 +144,44 @@ HandleResp(a, b, rt, c) ==
                                      IN [L |-> tr.L, send |-> tr.send, close |-> FALSE, verdict |-> "retry:" \o alt])
                                ELSE [L |-> L1, send |-> <<>>, close |-> TRUE, verdict |-> "closed:upstream-full"]
 
+\* The decisions of the discover loop (discoverRoutine / discoverFriends / discoverParents / discoverUncles):
+\* which request a node with its role would send to peer b in the current state.
+\*   root:           friend to every peer known as root that is not a friend yet; none to a friend that is
+\*                   known as seed but not root (a friend known as neither is closed);
+\*   seed (exactly): seeks ROOT peers, normal: seeks SEED peers -- as parent while a parent slot is free
+\*                   (candidates: orphanage or uncle), else as uncle while an uncle slot is free; none to
+\*                   every peer that is still a friend.
+Sought(a) == IF role[a] = {"seed"} THEN "root" ELSE "seed"
+Seeks(a, b, t) ==
+  LET L == loc[a] IN
+  IF IsRoot(role[a])
+  THEN \/ t = "friend" /\ IsRoot(view[a][b]) /\ L.ct[b] # "friend"
+       \/ t = "none" /\ L.ct[b] = "friend" /\ ~IsRoot(view[a][b]) /\ IsSeed(view[a][b])
+  ELSE \/ t = "none" /\ L.ct[b] = "friend"
+       \/ t = "parent" /\ Sought(a) \in view[a][b] /\ L.ct[b] \in {"none", "uncle"}
+             /\ (Sought(a) = "seed" => <<a, b>> \in Dials)        \* seeds are sought among outgoing connections only
+             /\ CountL(L, a, "parent") < LimParent
+       \/ t = "uncle" /\ Sought(a) \in view[a][b] /\ CountL(L, a, "parent") >= LimParent
+             /\ (Sought(a) = "seed" => <<a, b>> \in Dials)
+             /\ CountL(L, a, "uncle") < LimUncle
+             /\ L.ct[b] \in (IF Sought(a) = "seed" THEN {"none"} ELSE {"none", "uncle"})
+
+\* peers the discover loop closes: a root closes a friend known as neither root nor seed; the others
+\* close parents and uncles that are not known to hold the sought role
+DiscoverCloses(a, b) ==
+  IF IsRoot(role[a]) THEN loc[a].ct[b] = "friend" /\ ~IsRoot(view[a][b]) /\ ~IsSeed(view[a][b])
+  ELSE loc[a].ct[b] \in {"parent", "uncle"} /\ Sought(a) \notin view[a][b]
+\* what one discover tick of node a would do in the current state (a request also needs the peer to be
+\* neither in transit nor rejected: transitPeer)
+Tick(a) == [req |-> {<<b, t>> \in Peers(a) \X {"friend", "parent", "uncle", "none"} :
+                       /\ b \notin closed[a] /\ Seeks(a, b, t)
+                       /\ (t # "none" => (b \notin loc[a].trans /\ b \notin loc[a].rej))},
+            close |-> {b \in Peers(a) : b \notin closed[a] /\ DiscoverCloses(a, b)}]
+
 \* ---- history
 Proj == [a \in Nodes |-> [ct |-> [b \in Peers(a) |-> loc[a].ct[b]], trans |-> loc[a].trans, rej |-> loc[a].rej,
-                          closed |-> closed[a], q |-> [b \in Peers(a) |-> Len(net[<<a, b>>])]]]
+                          closed |-> closed[a], q |-> [b \in Peers(a) |-> Len(net[<<a, b>>])],
+                          tick |-> Tick(a), np |-> CountL(loc[a], a, "parent"), nu |-> CountL(loc[a], a, "uncle")]]
 Log(e) == /\ nops' = nops + 1
           /\ hist' = IF RecordHist THEN Append(hist, e @@ [st |-> Proj']) ELSE hist
 Ev(op, a, b, t, c, v) == [op |-> op, a |-> a, b |-> b, t |-> t, c |-> c, v |-> v]
@@ -162,29 +199,9 @@ Init == /\ role \in RoleCfgs
 CloseAt(a, b) == /\ closed' = [closed EXCEPT ![a] = @ \cup {b}]
 Dropped(L, b) == [L EXCEPT !.trans = @ \ {b}, !.rej = @ \ {b}]
 
-\* The decisions of the discover loop (discoverRoutine / discoverFriends / discoverParents / discoverUncles):
-\* which request a node with its role would send to peer b in the current state.
-\*   root:           friend to every peer known as root that is not a friend yet; none to a friend that is
-\*                   known as seed but not root (a friend known as neither is closed);
-\*   seed (exactly): seeks ROOT peers, normal: seeks SEED peers -- as parent while a parent slot is free
-\*                   (candidates: orphanage or uncle), else as uncle while an uncle slot is free; none to
-\*                   every peer that is still a friend.
-Sought(a) == IF role[a] = {"seed"} THEN "root" ELSE "seed"
-Seeks(a, b, t) ==
-  LET L == loc[a] IN
-  IF IsRoot(role[a])
-  THEN \/ t = "friend" /\ IsRoot(view[a][b]) /\ L.ct[b] # "friend"
-       \/ t = "none" /\ L.ct[b] = "friend" /\ ~IsRoot(view[a][b]) /\ IsSeed(view[a][b])
-  ELSE \/ t = "none" /\ L.ct[b] = "friend"
-       \/ t = "parent" /\ Sought(a) \in view[a][b] /\ L.ct[b] \in {"none", "uncle"}
-             /\ CountL(L, a, "parent") < LimParent
-       \/ t = "uncle" /\ Sought(a) \in view[a][b] /\ CountL(L, a, "parent") >= LimParent
-             /\ CountL(L, a, "uncle") < LimUncle
-             /\ L.ct[b] \in (IF Sought(a) = "seed" THEN {"none"} ELSE {"none", "uncle"})
-
 \* a request outside the discover decisions (a foreign implementation, a stale decision) taints the pair
 ConnRequest(a, b, t) ==
-  /\ b \in Peers(a) /\ b \notin closed[a]
+  /\ b \in Peers(a) /\ b \notin closed[a] /\ (OnlyDiscover => Seeks(a, b, t))
   /\ LET tr == Transit(loc[a], a, b, t) IN
      /\ loc' = [loc EXCEPT ![a] = tr.L]
      /\ net' = [net EXCEPT ![<<a, b>>] = @ \o tr.send]
@@ -209,7 +226,7 @@ Deliver(a, b) ==
 
 \* a misbehaving b answers (rt, c) to a without having been asked / regardless of its state
 InjectResp(b, a, rt, c) ==
-  /\ a \in Peers(b) /\ ninj < MaxInject /\ b \notin closed[a]
+  /\ a \in Peers(b) /\ ninj < MaxInject /\ b \notin closed[a] /\ a \notin closed[b]
   /\ net' = [net EXCEPT ![<<b, a>>] = Append(@, Resp(rt, c))]
   /\ byz' = byz \cup {<<b, a>>, <<a, b>>} /\ ninj' = ninj + 1
   /\ UNCHANGED <<role, view, loc, closed, nrole>>
